@@ -303,6 +303,8 @@ class Simulator(EventProducer, SimulatorInterface, Generic[TIME]):
         self._replication = replication
         self._model = model
         self._simulator_time = replication.start_sim_time
+        # the model (re)creates its output statistics in construct_model
+        model.output_statistics().clear()
         model.construct_model()
         self._run_state = RunState.INITIALIZED
         self._replication_state = ReplicationState.INITIALIZED
